@@ -152,11 +152,13 @@ def decodeIntegerValuesEb (kind numEntries nc attComponents : Nat) (md : MeshDat
       let mode ← rdU8
       require (mode == 0)            -- OPTIMAL_MULTI_PARALLELOGRAM
     let kMax := Generated.kMaxNumParallelograms.toNat
+    tag s!"at:constrained_mode:{← remaining}"
     let crease ← replicateM' kMax (do
       let numFlags ← varint 32
       require (numFlags ≤ numCorners)
       if numFlags == 0 then pure (#[] : Array Bool) else
       alloc "constrained_multi_parallelogram.is_crease_edge" (numFlags / 8)
+      tag s!"at:rans:{← remaining}"
       let d ← lift (ransBitStart pre22)
       pure (rabsReadBits d.probZero numFlags d.ans []).1.toArray)
     let wt ← lift Wrap.decodeTransformData
@@ -171,6 +173,7 @@ def decodeIntegerValuesEb (kind numEntries nc attComponents : Nat) (md : MeshDat
     -- not more orientations than corners (`fix:` commit 008c24a)
     require (numOrient.toNat ≤ numCorners)
     alloc "tex_coords_portable.orientations" (numOrient.toNat / 8)
+    tag s!"at:rans:{← remaining}"
     let d ← lift (ransBitStart pre22)
     let bits := (rabsReadBits d.probZero numOrient.toNat d.ans []).1
     let orient := (bits.foldl (fun (acc : Array Bool × Bool) b =>
@@ -209,6 +212,8 @@ def decodeIntegerValuesEb (kind numEntries nc attComponents : Nat) (md : MeshDat
       let mode ← rdU8
       require (mode ≤ Generated.TRIANGLE_AREA.toNat)
       oneTriangle := mode == Generated.ONE_TRIANGLE.toNat
+    tag s!"at:normal_mode:{← remaining}"
+    tag s!"at:rans:{← remaining}"
     let fd ← lift (ransBitStart pre22)
     let (r, flipped) ← liftR (geometricNormalDecode md pos c dec oneTriangle fd vals)
     tag ((if flipped > 0 then "pred:geometric_normal:flipped" else "pred:geometric_normal")
